@@ -1,3 +1,300 @@
 import IgrisModel.C10.Model
 namespace Igris.C10
+
+/-- 1 if byte `x` lies in the chunk (header or payload), else 0 -/
+def hasN (x : Nat) (c : Chunk) : Nat := if c.1 ≤ x ∧ x < c.1 + 8 + c.2 then 1 else 0
+
+/-- number of chunks of the list that contain byte `x` -/
+def cnt (x : Nat) : List Chunk → Nat
+  | [] => 0
+  | c :: l => hasN x c + cnt x l
+
+@[simp] theorem cnt_nil (x) : cnt x [] = 0 := rfl
+@[simp] theorem cnt_cons (x c l) : cnt x (c :: l) = hasN x c + cnt x l := rfl
+theorem cnt_append (x l₁ l₂) : cnt x (l₁ ++ l₂) = cnt x l₁ + cnt x l₂ := by
+  induction l₁ with
+  | nil => simp
+  | cons c l ih => simp [ih]; omega
+
+theorem hasN_le_one (x c) : hasN x c ≤ 1 := by unfold hasN; split <;> omega
+
+theorem cnt_pos_of_mem {x c l} (hm : c ∈ l) (hx : hasN x c = 1) : 1 ≤ cnt x l := by
+  induction l with
+  | nil => cases hm
+  | cons d l ih =>
+    rcases List.mem_cons.1 hm with rfl | h
+    · simp; omega
+    · have := ih h; simp; omega
+
+theorem hasN_merge (x : Nat) (a b : Chunk) (h : a.1 + 8 + a.2 = b.1) :
+    hasN x (a.1, a.2 + (b.2 + 8)) = hasN x a + hasN x b := by
+  unfold hasN; simp only; split <;> split <;> split <;> omega
+
+theorem disj_of_hasN (c d : Chunk) (h : ∀ x, hasN x c + hasN x d ≤ 1) :
+    c.1 + 8 + c.2 ≤ d.1 ∨ d.1 + 8 + d.2 ≤ c.1 := by
+  have := h (max c.1 d.1)
+  unfold hasN at this
+  split at this <;> split at this <;> omega
+
+theorem lookup_mem {a s} {l : List Chunk} (h : lookup a l = some s) : (a, s) ∈ l := by
+  induction l with
+  | nil => simp [lookup] at h
+  | cons c l ih =>
+    simp only [lookup] at h
+    split at h
+    · rename_i hc; cases h; cases c; simp at hc; subst hc; simp
+    · exact List.mem_cons_of_mem _ (ih h)
+
+theorem cnt_remove {a s x} {l : List Chunk} (h : lookup a l = some s) :
+    cnt x l = cnt x (remove a l) + hasN x (a, s) := by
+  induction l with
+  | nil => simp [lookup] at h
+  | cons c l ih =>
+    simp only [lookup] at h
+    simp only [remove]
+    split at h
+    · rename_i hc; cases h; cases c; simp at hc; subst hc; simp; omega
+    · rename_i hc; simp [hc, ih h]; omega
+
+theorem cnt_setChunk {a s x new} {l : List Chunk} (h : lookup a l = some s) :
+    cnt x (setChunk a new l) + hasN x (a, s) = cnt x l + hasN x new := by
+  induction l with
+  | nil => simp [lookup] at h
+  | cons c l ih =>
+    simp only [lookup] at h
+    simp only [setChunk]
+    split at h
+    · rename_i hc; cases h; cases c; simp at hc; subst hc; simp; omega
+    · rename_i hc; simp [hc]; have := ih h; omega
+
+
+theorem mem_remove {a c} {l : List Chunk} (h : c ∈ remove a l) : c ∈ l := by
+  induction l with
+  | nil => simp [remove] at h
+  | cons d l ih =>
+    simp only [remove] at h
+    split at h
+    · exact List.mem_cons_of_mem _ h
+    · rcases List.mem_cons.1 h with rfl | h
+      · simp
+      · exact List.mem_cons_of_mem _ (ih h)
+
+theorem remove_sublist (a) (l : List Chunk) : (remove a l).Sublist l := by
+  induction l with
+  | nil => simp [remove]
+  | cons d l ih =>
+    simp only [remove]
+    split
+    · exact List.sublist_cons_self _ _
+    · exact ih.cons_cons _
+
+theorem mem_setChunk {a c new} {l : List Chunk} (h : c ∈ setChunk a new l) : c ∈ l ∨ c = new := by
+  induction l with
+  | nil => simp [setChunk] at h
+  | cons d l ih =>
+    simp only [setChunk] at h
+    split at h
+    · rcases List.mem_cons.1 h with rfl | h
+      · exact Or.inr rfl
+      · exact Or.inl (List.mem_cons_of_mem _ h)
+    · rcases List.mem_cons.1 h with rfl | h
+      · simp
+      · rcases ih h with h | h
+        · exact Or.inl (List.mem_cons_of_mem _ h)
+        · exact Or.inr h
+
+/-- strictly address ordered and not adjacent -/
+def Below (c d : Chunk) : Prop := c.1 + 8 + c.2 < d.1
+
+theorem sorted_setChunk {a s new} {l : List Chunk} (hs : l.Pairwise Below) (h : lookup a l = some s)
+    (h1 : a ≤ new.1) (h2 : new.1 + 8 + new.2 ≤ a + 8 + s) : (setChunk a new l).Pairwise Below := by
+  induction l with
+  | nil => simp [setChunk]
+  | cons d l ih =>
+    simp only [lookup] at h
+    simp only [setChunk]
+    rw [List.pairwise_cons] at hs
+    split at h
+    · rename_i hd; cases h
+      simp only [hd, ↓reduceIte]
+      rw [List.pairwise_cons]
+      refine ⟨fun y hy => ?_, hs.2⟩
+      have := hs.1 y hy
+      unfold Below at *; omega
+    · rename_i hd; simp only [hd, ↓reduceIte]
+      rw [List.pairwise_cons]
+      refine ⟨fun y hy => ?_, ih hs.2 h⟩
+      rcases mem_setChunk hy with hy | rfl
+      · exact hs.1 y hy
+      · have := hs.1 _ (lookup_mem h)
+        unfold Below at *; simp at this; omega
+
+theorem lookup_of_mem_sorted {c : Chunk} {l : List Chunk} (hs : l.Pairwise Below) (hm : c ∈ l) :
+    lookup c.1 l = some c.2 := by
+  induction l with
+  | nil => cases hm
+  | cons d l ih =>
+    rw [List.pairwise_cons] at hs
+    simp only [lookup]
+    rcases List.mem_cons.1 hm with rfl | h
+    · simp
+    · have := hs.1 c h
+      have hne : ¬ d.1 = c.1 := by unfold Below at this; omega
+      simp only [hne, ↓reduceIte]
+      exact ih hs.2 h
+
+/-- what the step-1 loop of malloc returns -/
+theorem scan_inl {len a} {l : List Chunk} {s sfp} (h : scan len l s sfp = .inl a) :
+    (a, len) ∈ l := by
+  induction l generalizing s sfp with
+  | nil => simp [scan] at h
+  | cons c l ih =>
+    simp only [scan] at h
+    split at h
+    · exact List.mem_cons_of_mem _ (ih h)
+    · split at h
+      · rename_i h2; cases h; cases c; simp at h2; subst h2; simp
+      · split at h
+        · exact List.mem_cons_of_mem _ (ih h)
+        · exact List.mem_cons_of_mem _ (ih h)
+
+theorem scan_inr {len s' sfp'} {L l : List Chunk} {s sfp} (h : scan len l s sfp = .inr (s', sfp'))
+    (hsub : ∀ c ∈ l, c ∈ L) (h0 : s = 0 ∨ ((sfp, s) ∈ L ∧ len < s)) :
+    s' = 0 ∨ ((sfp', s') ∈ L ∧ len < s') := by
+  induction l generalizing s sfp with
+  | nil => simp [scan] at h; rcases h with ⟨rfl, rfl⟩; exact h0
+  | cons c l ih =>
+    simp only [scan] at h
+    have hsub' : ∀ c ∈ l, c ∈ L := fun c hc => hsub c (List.mem_cons_of_mem _ hc)
+    split at h
+    · exact ih h hsub' h0
+    · split at h
+      · cases h
+      · split at h
+        · refine ih h hsub' (Or.inr ⟨hsub c (by simp), ?_⟩)
+          omega
+        · exact ih h hsub' h0
+
+
+theorem le_roundLen (W len : Nat) : len ≤ roundLen W len := by
+  unfold roundLen; split <;> omega
+
+theorem roundLen_dvd (W len : Nat) (hW : 0 < W) : W ∣ roundLen W len := by
+  unfold roundLen
+  split
+  · have h1 := Nat.div_add_mod len W
+    have h2 := Nat.mod_lt len hW
+    refine ⟨len / W + 1, ?_⟩
+    rw [Nat.mul_add, Nat.mul_one]; omega
+  · rename_i h; simp at h; exact Nat.dvd_of_mod_eq_zero h
+
+structure CfgOK (cfg : Cfg) : Prop where
+  pos : 0 < cfg.W
+  w8 : cfg.W % 8 = 0
+
+theorem reqLen_props (cfg : Cfg) (ok : CfgOK cfg) (n : Nat) :
+    n ≤ minLen (roundLen cfg.W n) ∧ 8 ≤ minLen (roundLen cfg.W n) ∧ minLen (roundLen cfg.W n) % 8 = 0 := by
+  have h1 := le_roundLen cfg.W n
+  have h2 := roundLen_dvd cfg.W n ok.pos
+  have h3 : 8 ∣ roundLen cfg.W n := Nat.dvd_trans (Nat.dvd_of_mod_eq_zero ok.w8) h2
+  unfold minLen
+  split <;> omega
+
+structure HInv (cfg : Cfg) (h : Heap) : Prop where
+  tile : ∀ x, cnt x h.flp + cnt x h.live = if x < h.brk then 1 else 0
+  sorted : h.flp.Pairwise Below
+  notTop : ∀ f ∈ h.flp, f.1 + 8 + f.2 ≠ h.brk
+  wfF : ∀ c ∈ h.flp, 8 ≤ c.2 ∧ c.2 % 8 = 0 ∧ c.1 % 8 = 0
+  wfL : ∀ c ∈ h.live, 8 ≤ c.2 ∧ c.2 % 8 = 0 ∧ c.1 % 8 = 0
+  brk8 : h.brk % 8 = 0
+  lim : cfg.lim ≠ 0 → h.brk ≤ cfg.lim
+
+theorem HInv.fin_le_brk {cfg h} (hi : HInv cfg h) {c : Chunk} (hc : c ∈ h.flp ∨ c ∈ h.live) :
+    c.1 + 8 + c.2 ≤ h.brk := by
+  have ht := hi.tile (c.1 + 8 + c.2 - 1)
+  have hx : hasN (c.1 + 8 + c.2 - 1) c = 1 := by unfold hasN; split <;> omega
+  have : 1 ≤ cnt (c.1 + 8 + c.2 - 1) h.flp + cnt (c.1 + 8 + c.2 - 1) h.live := by
+    rcases hc with hc | hc
+    · have := cnt_pos_of_mem hc hx; omega
+    · have := cnt_pos_of_mem hc hx; omega
+  split at ht <;> omega
+
+theorem hasN_split (x a s k : Nat) (hk : k ≤ s) :
+    hasN x (a, s) = hasN x (a, s - k - 8) + hasN x (a + (s - k), k) ∨ s - k < 8 := by
+  by_cases h : s - k < 8
+  · exact Or.inr h
+  · left; unfold hasN; simp only; split <;> split <;> split <;> omega
+
+theorem malloc_inv (cfg : Cfg) (ok : CfgOK cfg) (h : Heap) (n : Nat) (hi : HInv cfg h) :
+    HInv cfg (malloc cfg h n).h := by
+  obtain ⟨hn, hn8, hnm⟩ := reqLen_props cfg ok n
+  unfold malloc
+  generalize minLen (roundLen cfg.W n) = len at *
+  simp only
+  split
+  · -- exact fit
+    rename_i a hsc
+    have hm := scan_inl hsc
+    have hl := lookup_of_mem_sorted hi.sorted hm
+    simp only at hl
+    have hw := hi.wfF _ hm
+    refine ⟨fun x => ?_, hi.sorted.sublist (remove_sublist _ _), fun f hf => hi.notTop f (mem_remove hf),
+      fun c hc => hi.wfF c (mem_remove hc), fun c hc => ?_, hi.brk8, hi.lim⟩
+    · have := hi.tile x; have := cnt_remove (x := x) hl; simp only [cnt_cons]; omega
+    · rcases List.mem_cons.1 hc with rfl | hc
+      · exact hw
+      · exact hi.wfL c hc
+  · rename_i s sfp1 hsc
+    have hb := scan_inr (L := h.flp) hsc (fun c hc => hc) (Or.inl rfl)
+    split
+    · rename_i hs0
+      have ⟨hm, hlt⟩ := hb.resolve_left hs0
+      have hl := lookup_of_mem_sorted hi.sorted hm
+      simp only at hl
+      have hw := hi.wfF _ hm
+      split
+      · -- whole chunk
+        refine ⟨fun x => ?_, hi.sorted.sublist (remove_sublist _ _), fun f hf => hi.notTop f (mem_remove hf),
+          fun c hc => hi.wfF c (mem_remove hc), fun c hc => ?_, hi.brk8, hi.lim⟩
+        · have := hi.tile x; have := cnt_remove (x := x) hl; simp only [cnt_cons]; omega
+        · rcases List.mem_cons.1 hc with rfl | hc
+          · exact hw
+          · exact hi.wfL c hc
+      · -- split
+        rename_i hsp
+        have hfin := hi.fin_le_brk (Or.inl hm)
+        simp only at hfin hw
+        refine ⟨fun x => ?_, sorted_setChunk hi.sorted hl (by simp) (by simp; omega), fun f hf => ?_,
+          fun c hc => ?_, fun c hc => ?_, hi.brk8, hi.lim⟩
+        · have := hi.tile x; have := cnt_setChunk (x := x) (new := (sfp1, s - len - 8)) hl
+          have := hasN_split x sfp1 s len (by omega)
+          simp only [cnt_cons]; omega
+        · rcases mem_setChunk hf with hf | rfl
+          · exact hi.notTop f hf
+          · simp only; omega
+        · rcases mem_setChunk hc with hc | rfl
+          · exact hi.wfF c hc
+          · simp only; omega
+        · rcases List.mem_cons.1 hc with rfl | hc
+          · simp only; omega
+          · exact hi.wfL c hc
+    · -- extend the break
+      split
+      · exact hi
+      · rename_i hlim
+        refine ⟨fun x => ?_, hi.sorted, fun f hf => ?_, hi.wfF, fun c hc => ?_, ?_, fun hl => ?_⟩
+        · have := hi.tile x; simp only [cnt_cons, hasN]; split at this <;> split <;> split <;> omega
+        · have := hi.fin_le_brk (Or.inl hf); simp only; omega
+        · rcases List.mem_cons.1 hc with rfl | hc
+          · have := hi.brk8; simp only; omega
+          · exact hi.wfL c hc
+        · have := hi.brk8; simp only; omega
+        · have := hi.lim hl; simp only at *
+          have hlim' : availOf cfg.lim h.brk ≥ len ∧ availOf cfg.lim h.brk ≥ len + 8 := by
+            by_cases hq : availOf cfg.lim h.brk ≥ len ∧ availOf cfg.lim h.brk ≥ len + 8
+            · exact hq
+            · exact absurd ⟨hl, hq⟩ hlim
+          unfold availOf at hlim'
+          split at hlim' <;> omega
+
 end Igris.C10
